@@ -84,6 +84,9 @@ pub struct Monitors {
     agents: BTreeMap<Aid, MAgent>,
     clock: u64,
     hits: Vec<Violation>,
+    /// The library panicked, hung or poisoned its lock: the container is broken (a C13 violation) and the
+    /// other monitors' bookkeeping (e.g. which guards are live) is no longer meaningful.
+    pub lib_failed: bool,
     /// C09: number of labels seen, per-key uses, start index of lock agents
     idx: usize,
     uses: BTreeMap<Key, Uses>,
@@ -100,6 +103,7 @@ impl Monitors {
             agents: BTreeMap::new(),
             clock: 0,
             hits: Vec::new(),
+            lib_failed: false,
             idx: 0,
             uses: BTreeMap::new(),
             lock_start: BTreeMap::new(),
@@ -178,6 +182,12 @@ impl Monitors {
         if !seg.snap.gone {
             self.check_snapshot(seg);
         }
+        if seg.snap.poisoned || seg.snap.glock_held {
+            self.lib_failed = true;
+        }
+        if self.lib_failed {
+            self.hits.retain(|h| h.id.starts_with("C13."));
+        }
         if let Some(only) = ONLY.get() {
             self.hits.retain(|h| only.iter().any(|p| h.id.starts_with(p.as_str())));
         }
@@ -191,9 +201,11 @@ impl Monitors {
             self.uses.entry(*key).or_default().open += 1;
         }
         if let Obs::Panic(m) = obs {
+            self.lib_failed = true;
             self.hit("C13.panic", format!("{} -> PANIC {}", label.text(), m));
         }
         if let Obs::Hang(m) = obs {
+            self.lib_failed = true;
             self.hit("C13.hang", format!("{} -> HANG {}", label.text(), m));
         }
         match label {
